@@ -751,12 +751,12 @@ static void flush_queue(void) {
         case EV_NFKD:
             fprintf(out, "{\"e\":\"Nfkd\",\"impl\":\"%c\",\"ret\":%ld,\"valid\":%s", e->impl, e->a, e->b ? "true" : "false");
             emit_bytes("in", e->d1, e->n1 > EVBUF ? EVBUF : e->n1);
-            fprintf(out, ",\"inlen\":%zu", e->n1);
+            fprintf(out, ",\"inlen\":%zu", e->n1 > (1u << 30) ? (size_t)(1u << 30) : e->n1);     /* (capped like the len of the call) */
             emit_bytes("out", e->d2, e->n2); break;
         case EV_NFC:
             fprintf(out, "{\"e\":\"Nfc\",\"impl\":\"%c\",\"ret\":%ld,\"full\":%ld", e->impl, e->a, e->c);
             emit_bytes("in", e->d1, e->n1 > EVBUF ? EVBUF : e->n1);
-            fprintf(out, ",\"inlen\":%zu", e->n1);
+            fprintf(out, ",\"inlen\":%zu", e->n1 > (1u << 30) ? (size_t)(1u << 30) : e->n1);     /* (capped like the len of the call) */
             emit_bytes("out", e->d2, e->n2); break;
         case EV_FORBID:
             fprintf(out, "{\"e\":\"Forbidden\",\"impl\":\"L\",\"sym\":\"%s\"", e->sym); break;
